@@ -701,8 +701,6 @@ func schedules(r *core.Run) {
 	r.Bound("C_preemption_bound_2_runtimes", b2)
 	r.Bound("C_preemption_bound_3_runtimes", b3)
 	r.Bound("C_programs", len(concurrentPrograms))
-	var mu sync.Mutex
-	_ = mu
 	core.ParallelRange(r, int64(len(concurrentPrograms)), nil, func(_ struct{}, i int64) {
 		src := concurrentPrograms[i]
 		scheduleExplore(r, src, 2, b2, r.Expired)
